@@ -661,6 +661,7 @@ def refusal_cases(rng, n_seeded: int) -> list[dict]:
     cases.append({"name": "modular_dir_dotted", "input": "dir", "files": {"a.json": DOCS["modular"][0], "b.json": J({"title": "B", **obj({"s": {"type": "string"}})})}, "ftype": "jsonschema", "result": "modular"})
     cases.append({"name": "modular_dir_openapi", "input": "dir", "files": {"api.yaml": OPENAPI_DOTTED, "other.yaml": OPENAPI_DOTTED.replace("shop.orders.Order", "Order")}, "ftype": "openapi", "result": "modular"})
     cases.append({"name": "raw_data_from_dir", "input": "dir", "files": {"a.json": "{}"}, "ftype": "json", "result": "invalid"})
+    cases.append({"name": "single_parsed_dict", "input": "dict", "data": {"name": "x", "tags": ["a"], "pos": {"lat": 1.5}}, "ftype": "dict", "result": "single"})
     cases.append({"name": "missing_input_auto", "input": "file", "files": {}, "ftype": "auto", "result": "invalid"})
     for i in range(n_seeded):
         text, ftype, modular = seeded_doc(rng, 500 + i)
@@ -688,7 +689,7 @@ def prepare_refusal_output(work: Path, state: str) -> Path | None:
     return out
 
 
-def refusal_run(ck: Check, camp, case: dict, state: str, base_cls: dict | None = None) -> dict:
+def refusal_run(ck: Check, camp, case: dict, state: str, base_cls: dict | None = None, relative: bool = False) -> dict:
     """one real run of a refusal case; evaluates the property's oracle (a failed run changes nothing; cwd as before; a successful
     run changes only the output; a run the contract refuses is refused). Returns the observation for the model comparison."""
     import datamodel_code_generator as d
@@ -703,14 +704,18 @@ def refusal_run(ck: Check, camp, case: dict, state: str, base_cls: dict | None =
         (src / fn).write_text(body, encoding="utf-8")
     if case["input"] == "text":
         arg = case["text"]
+    elif case["input"] == "dict":
+        arg = case["data"]
     elif case["input"] == "dir":
         arg = src
     else:
         arg = src / (next(iter(case.get("files") or {}), None) or "no-such-input.json")
     out = prepare_refusal_output(work, state)
     before = snapshot(root)
+    # the output path absolute (called from a foreign directory) or relative to the working directory (= the scratch parent)
+    cwd = work if relative and out is not None else root / "cwd"
     try:
-        err, cwd_after = call_generate(arg, case["ftype"], out, {}, root / "cwd")
+        err, cwd_after = call_generate(arg, case["ftype"], Path(out.name) if relative and out is not None else out, {}, cwd)
     finally:
         after = snapshot(root)
         shutil.rmtree(root, ignore_errors=True)
@@ -718,15 +723,16 @@ def refusal_run(ck: Check, camp, case: dict, state: str, base_cls: dict | None =
     diff = tree_diff(before, after)
     is_none, has_suffix = out is None, bool(out is not None and out.suffix)
     must_refuse = case["result"] == "nothing" or (case["result"] == "modular" and (is_none or has_suffix)) or case["result"] == "invalid"
-    inp = {"refusal": {k: case[k] for k in ("name", "input", "ftype", "result") if k in case} | {"text": case.get("text"), "files": case.get("files")}, "output_state": state}
+    inp = {"refusal": {k: case[k] for k in ("name", "input", "ftype", "result") if k in case} | {"text": case.get("text"), "files": case.get("files"), "data": case.get("data")}, "output_state": state, "relative_output": relative}
     cls = {"kind": "refusal", "stage": "refusal:" + case["result"], "output_state": state, "input_kind": case["input"], **(base_cls or {})}
     camp.hit(f"state:{state}")
     camp.hit(f"input:{case['input']}")
+    camp.hit("output-path:" + ("relative" if relative and out is not None else "absolute"))
     camp.hit(f"result:{case['result']}")
     camp.hit(("failed:" + type(err).__name__) if err else "succeeded")
     camp.distinct.add(json.dumps(inp, sort_keys=True))
     what = f"{case['result']} result of a {case['input']} input ({case['ftype']}) into output state {state}"
-    if Path(cwd_after) != root / "cwd":
+    if Path(cwd_after) != cwd:
         ck.fail({**cls, "oracle": "cwd_restored", "mechanism": "cwd_changed"}, inp, f"os.getcwd() changed during the run ({what})")
     if err is not None and diff:
         ck.fail({**cls, "oracle": "failed_run_tree_unchanged", "mechanism": "os_error_after_open" if isinstance(err, OSError) else "changed_before_raise"}, inp,
@@ -758,7 +764,7 @@ def campaign_refusals(ck: Check, n_seeded: int, only=None, stop_at_first: bool =
         for state in REFUSAL_OUTPUT_STATES:
             if only is not None and not only(case, state):
                 continue
-            obs.append(refusal_run(ck, camp, case, state))
+            obs.append(refusal_run(ck, camp, case, state, relative=len(obs) % 3 == 2))
             if stop_at_first and ck.failures:
                 break
         if stop_at_first and ck.failures:
@@ -870,7 +876,7 @@ def replay(ck: Check, path: str) -> int:
     inp = data.get("input") or {}
     camp = ck.campaign("replay")
     if "refusal" in inp:
-        refusal_run(ck, camp, dict(inp["refusal"]), inp["output_state"], {"kind": "replay"})
+        refusal_run(ck, camp, dict(inp["refusal"]), inp["output_state"], {"kind": "replay"}, relative=inp.get("relative_output", False))
     elif "doc" in inp:
         doc = inp["doc"]
         if inp.get("text") is not None:
